@@ -348,6 +348,8 @@ _add_job("C12", J("exp-queues-in-concurrent-trials", "expcheck", "rel", 2, 24, 3
 _add_job("C12", J("exp-queues-in-concurrent-trials-tsan", "expcheck", "tsan", 2, 4, 100, timeout=600, chunk=1, claim="C12/concurrent-trials/"))
 _add_job("C01", J("exp-event-queues-in-concurrent-trials", "expcheck", "rel", 4, 24, 2000, timeout=300, chunk=2, claim="C01/concurrent-trials/"))
 _add_job("C01", J("exp-event-queues-in-concurrent-trials-tsan", "expcheck", "tsan", 4, 4, 100, timeout=600, chunk=1, claim="C01/concurrent-trials/"))
+_add_job("C18", J("exp-correlations-in-concurrent-trials", "expcheck", "rel", 7, 24, 2000, timeout=300, chunk=2, claim="C18/concurrent-trials/"))
+_add_job("C18", J("exp-correlations-in-concurrent-trials-tsan", "expcheck", "tsan", 7, 4, 100, timeout=600, chunk=1, claim="C18/concurrent-trials/"))
 _add_job("C16", J("exp-samplers-in-concurrent-trials", "expcheck", "rel", 5, 24, 1500, timeout=300, chunk=2, claim="C16/concurrent-trials/"))
 _add_job("C16", J("exp-samplers-in-concurrent-trials-tsan", "expcheck", "tsan", 5, 3, 60, timeout=600, chunk=1, claim="C16/concurrent-trials/"))
 _add_job("C20", J("exp-static-pools-in-concurrent-trials", "expcheck", "rel", 0, 16, 2000, timeout=300, chunk=2, claim="C20/concurrent-trials/"))
